@@ -8,7 +8,7 @@ props = [json.loads(l) for l in open(os.path.join(ROOT, "properties.jsonl"))]
 CLAIMS = {
  "C12": ("proof",
          "Coq theorems over models regenerated from mypy/constant_fold.py and mypy/reachability.py (int folding = CPython's int semantics for all operands, no exception escapes; version/platform tests equal the run-time value for every interpreter of the target, with the exact characterisation of the one refuted class F5), hand models of call binding and C3 MRO proved equal to the transcribed CPython rule; models tied to /repo by translator + exhaustive correspondence against the implementation and CPython",
-         "Coq 8.16.1 kernel, vm_compute; translator tools/py2gallina.py; ExtrOcamlBasic extraction + OCaml driver; CPython 3.12.1 eval as run-time oracle; floats not modelled",
+         "Coq 8.16.1 kernel, vm_compute; translator tools/py2gallina.py; ExtrOcamlBasic extraction + OCaml drivers; CPython 3.12.1 (eval, type(), real calls) as run-time oracle; floats not modelled; arity theorem covers positional+keyword actuals only (*tuple/**TypedDict actuals not modelled); CPython pmerge/initialize_locals transcribed by hand and tied to CPython behaviourally; known finding F5 (version_info compared with a literal equal to the target prefix) is characterised exactly by theorem version_test_exact",
          "Coq proof over translated model + exhaustive correspondence vs implementation and CPython", "6/C12"),
 }
 NOT_YET = "model and theorems for this property are not built yet in this round (see DESIGN.md section 6 for the plan); not claimed until the Coq development and its tie exist"
